@@ -52,11 +52,18 @@ impl Hist {
                 p.resize(32, 0);
                 self.live.retain(|(t, x)| !(*t == p && *x == i.prev_index));
             }
-            for (k, o) in tx.outputs.iter().enumerate() {
-                if matches!(crate::scriptref::eval(coin, &o.script.0).addr, crate::scriptref::AddrV::Some(_)) {
-                    self.live.retain(|(t, x)| !(*t == id && *x == k as u32));
-                    self.live.push((id.clone(), k as u32));
-                }
+            // a re-included identical tx replaces its earlier outputs: drop them once, then add
+            let addr_outs: Vec<u32> = tx
+                .outputs
+                .iter()
+                .enumerate()
+                .filter(|(_, o)| matches!(crate::scriptref::eval(coin, &o.script.0).addr, crate::scriptref::AddrV::Some(_)))
+                .map(|(k, _)| k as u32)
+                .collect();
+            let set: std::collections::HashSet<u32> = addr_outs.iter().copied().collect();
+            self.live.retain(|(t, x)| !(*t == id && set.contains(x)));
+            for k in addr_outs {
+                self.live.push((id.clone(), k));
             }
         }
         self.all_txs.push(tx.clone());
@@ -271,8 +278,18 @@ fn random_history(prop: &str, coin: &str, n_tx: usize, reuse: bool, rng: &mut Rn
                 }
             }
             _ => {
-                // many outputs: indices past 255, some spent later
-                if rng.chance(1, 4) {
+                // many outputs: indices past 255 (and, rarely, past 65535), some spent later
+                if rng.chance(1, 70) && hist.all_txs.len() < 30 {
+                    let n = rng.usize(65_537, 65_560);
+                    let tx = create_tx(&mut hist, coin, &keys, n, rng, vec![], false);
+                    hist.add(tx, true, coin);
+                    // spend one of the outputs past 65535 and one just below right away or later
+                    if let Some(p) = hist.live.iter().rev().find(|p| p.1 >= 65_536).cloned() {
+                        let ins = vec![Hist::spend_input(&p, rng)];
+                        let tx = create_tx(&mut hist, coin, &keys, 1, rng, ins, false);
+                        hist.add(tx, true, coin);
+                    }
+                } else if rng.chance(1, 4) {
                     let n = rng.usize(257, 320);
                     let tx = create_tx(&mut hist, coin, &keys, n, rng, vec![], true);
                     hist.add(tx, true, coin);
@@ -310,6 +327,8 @@ fn prefix_runs(scn: &mut Scenario, cb: &[&str], rng: &mut Rng, all_prefixes: boo
             if rng.chance(1, 3) {
                 r.plan.wshort = random_chunks(rng);
             }
+            let n_out: usize = scn.chain.iter().flat_map(|b| b.txs.iter()).map(|t| t.outputs.len()).sum();
+            fit_writes(&mut r.plan, n_out as u64 * 130, 100_000);
             scn.runs.push(r);
         }
     }
@@ -347,6 +366,9 @@ fn probes(scn: &Scenario, m: &Model, st: &mut Stats) {
             }
             if t.outputs.len() > 256 {
                 st.probe("tx_with_over_256_outputs");
+            }
+            if t.outputs.len() > 65_536 {
+                st.probe("tx_with_over_65536_outputs");
             }
             if seen_txids.contains_key(&id) {
                 st.probe("duplicate_txid");
